@@ -13,7 +13,7 @@ pub fn def() -> CheckDef {
         id: "C07",
         level: "exploration",
         cases: |t| match t {
-            Tier::Quick => 5_000,
+            Tier::Quick => 30_000,
             Tier::Thorough => 400_000,
         },
         gen,
